@@ -61,6 +61,15 @@ def _fake_urandom(n):
     return out[:n]
 
 
+def purge_batchie():
+    """Simulated process boundary for module-level state of the code under test: drop every batchie
+    module so that the next import re-executes it.  Called at the start of every simulated run (each run
+    is one hermetic 'machine': caches in module globals cannot leak from an earlier run of the same
+    worker into this one, which would make a finding irreproducible from its plan)."""
+    for k in [k for k in sys.modules if k == "batchie" or k.startswith("batchie.")]:
+        del sys.modules[k]
+
+
 def set_entropy(seed: int):
     """Process-start entropy of a simulated launch: global numpy and stdlib state and the
     OS entropy pool."""
